@@ -26,7 +26,8 @@ theorem eqv_omegaDelta_teamPerm_n (K : Kind) (hK : K.eqv_full) (L : Leaves ℝ) 
   have h' : ∀ j : Fin ts'.length, ts'[j] = ts[((finCongr hl').trans σ) j] :=
     fun j => h (finCongr hl' j)
   have key := eqv_omegaDelta_reindex K L P ts ts' ((finCongr hl').trans σ)
-    (fun j => by rw [h']) (fun j => by rw [h']) (fun j => by rw [h']) (Or.inl hK)
+    (fun j => by rw [h']) (fun j => by rw [h']) (fun j => by rw [h'])
+    (fun j => gam_sameCalls_of_eq _ (h' j)) (Or.inl hK)
   simp only [key, List.getElem_ofFn]
   rfl
 
